@@ -256,6 +256,13 @@ func checkCRLLiterals(c *Check, pg *PG, rule string) {
 				}
 			}
 			c.add(rule, "verdict literal agrees with its single server result", "a verdict literal with a literal server list carries exactly one server result of the same verdict", good, where, det...)
+		case cl != resOK:
+			n++
+			k := "?"
+			if sr != nil {
+				k = sr.Key()
+			}
+			c.add(rule, "non-OK verdict carries a single literal server result", "a Revoked/Unknown/NonRevokable verdict carries a literal list with exactly one server result", false, where, "server results: "+k)
 		case cl == resOK:
 			n++
 			// accumulated list: every appended element must be an OK-class server result
